@@ -1088,3 +1088,51 @@ def extra_c01(seed, tier, log):
     return dict(failures=failures, evaluations=len(scns), scenarios=scenarios, obligations=[],
                 samples=[dict(kind="event-free runs over long horizons, all sparsity classes x order variants", runs=len(scns),
                               steps=n_for(tier, 150, 400))])
+
+
+# ---------------------------------------------------------------------------
+def extra_c09(seed, tier, log):
+    """The built-in recovery curves with rational values (linear, convexe, convexe scaled) evaluated
+    by the real functions on a grid, against Model/RecoveryFns.v (obligation rec.curves); shape of the
+    concave curve (not modelled) checked numerically."""
+    from harness import cases, scen
+    from boario.utils import recovery_functions as rfm
+    import pandas as pd
+    cf = cases.CaseFile()
+    cf.defs.append("Require Import Boario.Model.RecoveryFns Boario.Model.Ctor Boario.Corr.CheckIO.")
+    init = np.array([1.0, 2.5, 1234.5678, 0.0])
+    fns = [(0, rfm.linear_recovery), (1, rfm.convexe_recovery), (2, rfm.convexe_recovery_scaled)]
+    failures, evals = [], 0
+    taus = [1, 2, 3, 5, 10, 40] if tier == "quick" else [1, 2, 3, 4, 5, 7, 10, 20, 40, 90]
+    for which, fn in fns:
+        for tau in taus:
+            for e in sorted(set([0, 1, 2, tau - 1, tau, tau + 1, tau + 5, 2 * tau])):
+                if e < 0:
+                    continue
+                val = np.asarray(fn(e, pd.Series(init), tau), dtype=float)
+                evals += 1
+                cf.check({"scn": f"curve-{which}-{tau}-{e}", "t": e, "ob": "rec.curves"},
+                         f"chk_curve {which}%nat {tau}%nat {e}%nat {cf.vec(init)} {cf.vec(val)}")
+    # concave: bounded by the initial damage, non-negative, non-increasing for tau > 2
+    for tau in [3, 5, 10, 40, 90]:
+        prev = None
+        for e in range(0, 3 * tau):
+            v = np.asarray(rfm.concave_recovery(e, pd.Series(init), tau), dtype=float)
+            evals += 1
+            if np.any(v < 0) or np.any(v > init * (1 + 1e-12)) or (prev is not None and np.any(v > prev * (1 + 1e-12))):
+                failures.append(_fail("C09", None, f"concave recovery (tau={tau}) out of [0, initial] or increasing at elapsed {e}",
+                                      sig="concave-shape"))
+                break
+            prev = v
+    verdicts = cases.run_casefiles([(os.path.join(cases.BUILD, f"curves_{os.getpid()}"), cf)], jobs=1)
+    try:
+        os.remove(os.path.join(cases.BUILD, f"curves_{os.getpid()}.v"))
+    except OSError:
+        pass
+    bad = [(t, c, d) for t, c, d in verdicts if c != 0]
+    obligations = [("corr:rec.curves", not bad, f"{len(verdicts)} curve values agree" if not bad else
+                    f"{len(bad)}/{len(verdicts)} disagree: " + "; ".join(f"{t['scn']}:{c} {d[-150:]}" for t, c, d in bad[:4]))]
+    for t, c, d in bad[:2]:
+        failures.append(_fail("C09", None, f"built-in recovery curve disagrees with its model at {t['scn']} (which-tau-elapsed)", sig="curve-mismatch"))
+    return dict(failures=failures, evaluations=evals, scenarios={}, obligations=obligations,
+                samples=[dict(kind="linear / convexe / convexe scaled on a (tau, elapsed) grid vs RecoveryFns.v; concave shape numerically", points=evals)])
